@@ -787,7 +787,7 @@ def _cases(ctx):
         yield gen_square_case(rng, rng.randint(2, 30 if not big else 60), rng.randint(2, 30 if not big else 60), rng.choice(["float", "float", "exact"]))
     # part A
     yield from small_spiral_cases()
-    for _ in range(ctx.budget(1200, 15000)):
+    for _ in range(ctx.budget(800, 15000)):
         yield gen_spiral_case(rng)
 
 
